@@ -719,6 +719,9 @@ error:
 	status.error = EVRPC_STATUS_ERR_UNSTARTED;
 	(*ctx->cb)(&status, ctx->request, ctx->reply, ctx->cb_arg);
 	evrpc_request_wrapper_free(ctx);
+	/* the request was never handed to the http layer: it is still ours */
+	if (req != NULL)
+		evhttp_request_free(req);
 	return (-1);
 }
 
@@ -733,12 +736,17 @@ evrpc_schedule_request_closure(void *arg, enum EVRPC_HOOK_RESULT hook_res)
 	char *uri = NULL;
 	int res = 0;
 
-	if (hook_res == EVRPC_TERMINATE)
+	if (hook_res == EVRPC_TERMINATE) {
+		/* the request was never handed to the http layer */
+		evhttp_request_free(req);
 		goto error;
+	}
 
 	uri = evrpc_construct_uri(ctx->name);
-	if (uri == NULL)
+	if (uri == NULL) {
+		evhttp_request_free(req);
 		goto error;
+	}
 
 	if (pool->timeout > 0) {
 		/*
